@@ -64,7 +64,9 @@ def run_impl(case):
 
 
 def line(case, impl):
-    return None if _x(case) or _ih(case) or _dec(case) else S.line(case, impl)
+    if _x(case):
+        return X.xline(case, impl)
+    return None if _ih(case) or _dec(case) else S.line(case, impl)
 
 
 def tags(case, impl, model):
@@ -74,7 +76,7 @@ def tags(case, impl, model):
         return ["stream:inheritdeser", "inherit:" + case["shape"]] + sorted({f"inherit-ctor:{'ok' if s['ctor'] == 'ok' else 'rejects'}" for s in impl.get("steps", [])})
     if _x(case):
         return ["stream:extras-" + ("image" if case.get("corrupt") is None else "corrupt"), "extras:" + impl.get("out", "skipped"),
-                "extras-ctor:" + impl.get("ctor", "skipped")] + (["extras-exc:" + impl["exc"]] if "exc" in impl else [])
+                "extras-ctor:" + impl.get("ctor", "skipped"), "extras-model:" + ("line" if impl.get("xline") else "oracle-only")] + (["extras-exc:" + impl["exc"]] if "exc" in impl else [])
     return S.tags(case, impl, model)
 
 
@@ -96,7 +98,7 @@ def judge(case, impl, model):
     if _ih(case):
         return None, IH.judge(case, impl)
     if _x(case):
-        return None, X.judge_exact(case, impl)
+        return X.xcorrespond(case, impl, model), X.judge_exact(case, impl)
     msg = S.correspondence(case, impl, model)
     fails = []
     if "unbuildable" in impl or "abstraction_mismatch" in impl or "deser" not in impl:
